@@ -17,7 +17,21 @@ Line kinds (all but `sess` are also run by the Lean driver):
                                              under harness/vsim.py connected to harness/refdev.py whose channels are
                                              ALREADY enabled / have dividers at connect time; every ENABLE/DIV request
                                              it emits is received by such a long-lived real `Device`; judged: that
-                                             device's state after each `channels_write()` == the state the caller asked for
+                                             device's state after each `channels_write()` == the state the caller asked for.
+                                             Ops: e/d<ids> v<div>:<ids> A N D and W:<d>:<e> = channels_write() whose
+                                             divider / enable request is a: acknowledged, x: applied but the ACK is lost,
+                                             l: lost, n<r>: rejected (requests that did not reach the device are not fed
+                                             to the judging device; only fully acknowledged writes are judged).  One write
+                                             may turn one channel on and another off; a failed write may be followed by a
+                                             write that differs from the acknowledged state in one channel.
+  sess dummy <flags> <rxp> <types> <en> <div> <ops>
+                                             the same calls against nxslib's own simulated device `intf/dummy.py::DummyDev`
+                                             (its receive thread, dispatcher, `_enable_cb/_div_cb`) built through its public
+                                             constructor with channels of every type class (UNDEF, NONE, critical bit, ...);
+                                             judged: the state held by the channel objects after each `channels_write()`
+
+Assumption (R4-B-LOW): enable vectors are lists of real bools (the API is typed list[bool]); `frame_enable([1,0,1],3)` with
+ints emits a bulk request with every channel off (`enable[c] is True`) — behaviour of /repo outside the statements.
 
 Channel-info request: the device side has NO decoder function for it (`ParseRecv` only checks the payload length; the
 callback of the device reads the channel id itself as payload byte 0, `intf/dummy.py::_chinfo_cb`: `data[0]`).  What is
@@ -58,10 +72,19 @@ def state_diff(want, got):
         return ""
 
 
+# channel type bytes of the devices: every data type class, the critical bit (0x80), reserved bits, UNDEF (0) and NONE (1) —
+# what a set request means at the device does not depend on them
+TYPES = [2, 0x82, 10, 0x8A, 0, 0x80, 31, 0xFF, 1, 0x61]
+
+
+def dev_type(i, n):
+    return TYPES[(i + n) % len(TYPES)]
+
+
 def mk_device(n, en, div):
-    """a real nxslib Device holding the given current state"""
+    """a real nxslib Device holding the given current state (channel types: dev_type)"""
     from nxslib.dev import Device, DeviceChannel
-    return Device(n, 3, 0, [DeviceChannel(i, 2, 1, f"c{i}", en=bool(en[i]), div=int(div[i])) for i in range(n)])
+    return Device(n, 3, 0, [DeviceChannel(i, dev_type(i, n), 1, f"c{i}", en=bool(en[i]), div=int(div[i])) for i in range(n)])
 
 
 def other_vec(line, n, kind):
@@ -206,9 +229,13 @@ def structured_ens(rng, n):
 
 
 # -- session level ----------------------------------------------------------------------------------------------------
-def gen_session(rng, n):
+def gen_session(rng, n, dummy=False):
     """calls of a caller who leaves the channels that are already configured alone: a few rounds of
-    (change some OTHER channels; write); rounds are chosen so that single, bulk and all requests all occur"""
+    (change some OTHER channels; write); rounds are chosen so that single, bulk and all requests all occur, that one write
+    turns one channel on AND another one off ("swap"), and (reference device with ACK support only) that a write whose
+    request was applied but whose ACK was lost / which was lost is followed by a write that differs from the client's
+    last acknowledged state in exactly one channel ("fault")
+    dummy: a session for nxslib's own simulated device (no lost / rejected requests there)"""
     flags = rng.choice([3, 3, 3, 1, 2])
     en = [rng.random() < 0.4 for _ in range(n)]
     en[rng.randrange(n)] = True                      # at least one channel is already enabled at connect
@@ -216,27 +243,196 @@ def gen_session(rng, n):
     div[rng.randrange(n)] = rng.choice([1, 5, 128])  # at least one divider is already set
     untouched = [i for i in range(n) if en[i]][:1] + [i for i in range(n) if div[i]][:1]
     free = [i for i in range(n) if i not in untouched] or list(range(n))
+    we, wd = list(en), list(div)                     # the state the caller has asked for so far
     ops = []
+
+    def add(op):
+        ops.append(op)
+        if op[0] in "ed":
+            for c in op[1:].split(","):
+                we[int(c)] = op[0] == "e"
+        elif op[0] == "v":
+            v, cs = op[1:].split(":")
+            for c in cs.split(","):
+                wd[int(c)] = int(v)
+        elif op == "D":
+            we[:], wd[:] = [False] * n, [0] * n
+        elif op in "AN":
+            we[:] = [op == "A"] * n
+
+    def other_div(c):
+        return rng.choice([v for v in (1, 2, 7, 128, 200, 255) if v != wd[c]])
+    kinds = ["one", "some", "some", "all", "mixed", "swap", "swap"] + (["fault", "fault"] if flags == 3 and not dummy else [])
     for _ in range(rng.randrange(2, 5)):
-        kind = rng.choice(["one", "some", "some", "all", "mixed"])
+        kind = rng.choice(kinds)
+        off = [c for c in free if not we[c]]
+        on = [c for c in free if we[c]]
         if kind == "one":
             c = rng.choice(free)
-            ops.append(rng.choice([f"e{c}", f"d{c}", f"v{rng.choice([1, 9, 128, 255])}:{c}"]))
+            add(rng.choice([f"e{c}", f"d{c}", f"v{rng.choice([1, 9, 128, 255])}:{c}"]))
         elif kind == "some":
             cs = sorted(set(rng.choice(free) for _ in range(rng.randrange(2, 4))))
-            ops.append(rng.choice(["e", "d"]) + ",".join(map(str, cs)))
+            add(rng.choice(["e", "d"]) + ",".join(map(str, cs)))
             if rng.random() < 0.6:
                 for c in cs[:2]:
-                    ops.append(f"v{rng.choice([1, 2, 7, 128, 200, 255])}:{c}")
+                    add(f"v{rng.choice([1, 2, 7, 128, 200, 255])}:{c}")
         elif kind == "all":
-            ops.append(rng.choice(["A", "N", "D", f"v{rng.choice([0, 4, 129])}:" + ",".join(map(str, range(n)))]))
+            add(rng.choice(["A", "N", "D", f"v{rng.choice([0, 4, 129])}:" + ",".join(map(str, range(n)))]))
+        elif kind == "swap" and len(free) >= 2:
+            # one write that turns exactly one channel on and exactly one other channel off (and the same for two dividers)
+            if not on:
+                add(f"e{off[0]}")
+                add("W:a:a")
+                on, off = [off[0]], off[1:]
+            if not off:
+                add(f"d{on[0]}")
+                add("W:a:a")
+                on, off = on[1:], [on[0]]
+            if on and off:
+                a, b = rng.choice(off), rng.choice(on)
+                for op in rng.sample([f"e{a}", f"d{b}"], 2):
+                    add(op)
+                if rng.random() < 0.5:
+                    add(f"v{other_div(a)}:{a}")
+                    add(f"v{other_div(b)}:{b}")
+        elif kind == "fault" and len(free) >= 2:
+            # a write that fails (x: applied, ACK lost; l: lost; n22: rejected), then the caller takes that change back and
+            # changes one other channel: the client's acknowledged state and the request differ in ONE channel
+            a, b = rng.sample(free, 2)
+            o = rng.choice(["x", "x", "x", "l", "n22"])
+            if rng.random() < 0.5:
+                add(f"d{a}" if we[a] else f"e{a}")
+                add(f"W:a:{o}")
+                add(f"d{a}" if we[a] else f"e{a}")
+                add(f"d{b}" if we[b] else f"e{b}")
+            else:
+                old = wd[a]
+                add(f"v{other_div(a)}:{a}")
+                add(f"W:{o}:a")
+                add(f"v{old}:{a}")
+                add(f"v{other_div(b)}:{b}")
         else:
             c = rng.choice(free)
-            ops.append(f"e{c}")
-            ops.append(f"v{rng.choice([3, 130])}:{rng.choice(free)}")
-            ops.append(f"v{rng.choice([6, 250])}:{rng.choice(free)}")
-        ops.append("W:a:a")
+            add(f"e{c}")
+            add(f"v{rng.choice([3, 130])}:{rng.choice(free)}")
+            add(f"v{rng.choice([6, 250])}:{rng.choice(free)}")
+        add("W:a:a")
+    if dummy:
+        rxp = rng.choice([0, 0, 8, 16, 255])
+        types = [rng.choice(TYPES) for _ in range(n)]
+        return f"sess dummy {flags} {rxp} {ints(types)} {bits(en)} {ints(div)} {';'.join(ops)}"
     return f"sess cfg {flags} {bits(en)} {ints(div)} {';'.join(ops)}"
+
+
+def apply_call(op, want_en, want_div, n):
+    """the caller's view: the state asked for after the call"""
+    if op[0] == "e":
+        for c in op[1:].split(","):
+            want_en[int(c)] = True
+    elif op[0] == "d":
+        for c in op[1:].split(","):
+            want_en[int(c)] = False
+    elif op[0] == "v":
+        v, cs = op[1:].split(":")
+        for c in cs.split(","):
+            want_div[int(c)] = int(v)
+    elif op == "D":
+        want_en[:], want_div[:] = [False] * n, [0] * n
+    elif op == "A":
+        want_en[:] = [True] * n
+    elif op == "N":
+        want_en[:] = [False] * n
+
+
+def run_dummy_history(flags, rxp, types, en0, div0, ops):
+    """the real CommHandler connected to nxslib's own simulated device `intf/dummy.py::DummyDev` (its receive thread, the
+    real dispatcher and `_enable_cb/_div_cb`) under the virtual-time runtime.  The device is built through the public
+    constructor from channel objects the harness keeps; its state is read from those objects.
+    -> (per op: (exception name | None, device 'en/div' after the op), thread errors)"""
+    import vsim
+    out = []
+
+    def scenario(sim):
+        from nxslib.comm import CommHandler
+        from nxslib.proto.parse import Parser
+        from nxslib.intf.dummy import DummyDev
+        from nxslib.dev import DeviceChannel
+        n = len(en0)
+        objs = [DeviceChannel(i, types[i], 0 if (types[i] & 0x1F) < 2 else 1, f"c{i}", en=bool(en0[i]), div=int(div0[i]))
+                for i in range(n)]
+        intf = DummyDev(chmax=n, flags=flags, channels=objs, rxpadding=rxp)
+        comm = CommHandler(intf, Parser())
+        try:
+            comm.connect()
+            for op in ops:
+                err = None
+                try:
+                    if op == "D":
+                        comm.channels_default_cfg()
+                    elif op == "A":
+                        comm.ch_enable_all()
+                    elif op == "N":
+                        comm.ch_disable_all()
+                    elif op.startswith("W:"):
+                        comm.channels_write()
+                    elif op[0] == "e":
+                        comm.ch_enable([int(x) for x in op[1:].split(",")])
+                    elif op[0] == "d":
+                        comm.ch_disable([int(x) for x in op[1:].split(",")])
+                    elif op[0] == "v":
+                        v, cs = op[1:].split(":")
+                        comm.ch_divider([int(x) for x in cs.split(",")], int(v))
+                    else:
+                        raise ValueError(op)
+                except Exception as e:
+                    err = exc_name(e)
+                if op.startswith("W:"):
+                    # a device without ACK support handles the requests some time after channels_write() returned:
+                    # let its receive thread take what was written before its state is read
+                    sim.block(lambda: False, 0.5, "settle")
+                out.append((err, f"{bits(o.data.en for o in objs)}/{ints(o.data.div for o in objs)}"))
+        finally:
+            try:
+                comm.disconnect()
+            finally:
+                intf.stop = lambda: None      # a late __del__ must not touch the simulation's primitives
+
+    r, sim = vsim.run_sim(scenario, time_limit=3000.0, real_limit=30.0)
+    if isinstance(r, BaseException):
+        raise r
+    return out, [(a, repr(b)) for a, b, _ in sim.errors]
+
+
+def judge_dummy_session(line):
+    """sess dummy <flags> <rxp> <types> <en> <div> <ops>: after every channels_write() the state held by the simulated
+    device == the state the caller asked for"""
+    t = line.split(" ")
+    flags, rxp, types, en0, div0, ops = int(t[2]), int(t[3]), unints(t[4]), unbits(t[5]), unints(t[6]), t[7].split(";")
+    n = len(en0)
+
+    def bad(key, what, exp, obs):
+        return {"key": key, "what": what, "expected": exp, "observed": obs, "case": line}
+    try:
+        out, errors = run_dummy_history(flags, rxp, types, en0, div0, ops)
+    except Exception as e:
+        return bad("dummy-session-raises", f"session against DummyDev raised {type(e).__name__}: {e}", "no exception", exc_name(e))
+    if errors:
+        return bad("dummy-session-thread-died", "a library thread died: " + repr(errors[0]), "-", "-")
+    want_en, want_div = [bool(x) for x in en0], list(div0)
+    done = []
+    for op, (err, st) in zip(ops, out):
+        done.append(op)
+        if err:
+            return bad("dummy-session-call-raises", f"call {op} raised (after {';'.join(done[:-1])})", "no exception", err)
+        apply_call(op, want_en, want_div, n)
+        if op.startswith("W:"):
+            exp = f"{bits(want_en)}/{ints(want_div if flags & 1 else div0)}"
+            if st != exp:
+                return bad("dummy-session-device-state",
+                           f"nxslib's simulated device DummyDev(chmax={n}, flags={flags}, rxpadding={rxp}), channel types {ints(types)}, state "
+                           f"at connect en={bits(en0)} div={ints(div0)}; caller (CommHandler): {';'.join(done)}; the state the device holds "
+                           "after this channels_write() differs from the state the caller asked for" + state_diff(exp, st), exp, st)
+    return None
 
 
 def judge_session(line):
@@ -263,22 +459,12 @@ def judge_session(line):
         done.append(op)
         if f["e"] != "-":
             return bad("session-call-raises", f"call {op} raised", "no exception", f["e"])
-        if op[0] == "e":
-            for c in op[1:].split(","):
-                want_en[int(c)] = True
-        elif op[0] == "d":
-            for c in op[1:].split(","):
-                want_en[int(c)] = False
-        elif op[0] == "v":
-            v, cs = op[1:].split(":")
-            for c in cs.split(","):
-                want_div[int(c)] = int(v)
-        elif op == "D":
-            want_en, want_div = [False] * n, [0] * n
-        elif op == "A":
-            want_en = [True] * n
-        elif op == "N":
-            want_en = [False] * n
+        apply_call(op, want_en, want_div, n)
+        # what became of the requests of this write on their way (W:<div request>:<enable request>; a = acknowledged,
+        # x = applied but the ACK is lost, l = lost, n<r> = rejected with return code r)
+        fate = {"div": "a", "en": "a"}
+        if op.startswith("W:"):
+            fate["div"], fate["en"] = op.split(":")[1:3]
         sent = [] if f["s"] == "-" else [unhex(x) for x in f["s"].split(",")]
         for w in sent:
             fr = split_frame(w)
@@ -286,17 +472,21 @@ def judge_session(line):
                 continue
             kind = "en" if fr[0] == 6 else "div"
             stats[kind][form_of(fr[1])] = stats[kind].get(form_of(fr[1]), 0) + 1
+            if fate[kind] not in ("a", "x"):
+                continue                       # never reached the device / was rejected by it
             r = dev.recv(w)
             if not r.startswith("cb"):
                 return bad("session-request-not-understood",
                            f"after calls {';'.join(done)} the client wrote {hexs(w)} ({kind} request, {form_of(fr[1])} form) "
                            f"which the device-side dispatcher/decoder did not accept", "callback runs", r)
-        if op.startswith("W:"):
+        if op.startswith("W:") and fate["div"] == "a" and fate["en"] == "a":
             exp_div = want_div if flags & 1 else div0
             if dev.en() != [bool(x) for x in want_en] or dev.div() != exp_div:
                 return bad("session-device-state",
                            f"device with {n} channels, state at connect en={bits(en0)} div={ints(div0)}, flags={flags}; caller: "
-                           f"{';'.join(done)}; requests written by this write: {','.join(hexs(sl.strip_pad(w)) for w in sent) or '-'}; "
+                           f"{';'.join(done)} (W:<d>:<e> = channels_write() whose divider / enable request was a: acknowledged, "
+                           f"x: applied but the ACK was lost, l: lost, n<r>: rejected); requests written by this write: "
+                           f"{','.join(hexs(sl.strip_pad(w)) for w in sent) or '-'}; "
                            "state derived by the device-side decoders (ParseRecv.frame_enable_decode/frame_div_decode on a "
                            "Device updated by per-channel writes) differs from the state the caller asked for"
                            + state_diff(f"{bits(want_en)}/{ints(exp_div)}", f"{bits(dev.en())}/{ints(dev.div())}"),
@@ -313,10 +503,14 @@ class C05(Prop):
             "all-nonzero-distinct) and current states, out-of-range arguments; request histories on one long-lived Device "
             "through the real dispatcher (single/bulk/all of both kinds interleaved, other requests and noise in between), "
             "built by hand and by the real client builders; session level: real CommHandler against a reference device with "
-            "channels already enabled / dividers set at connect, every emitted set request decoded by the real device side; "
+            "channels already enabled / dividers set at connect, every emitted set request decoded by the real device side "
+            "(writes that turn one channel on and another off, writes after a lost ACK / lost / rejected request), and against "
+            "nxslib's own DummyDev with channels of every type class; devices carry type bytes with the critical / reserved bits, "
+            "UNDEF and NONE; requests whose frame ends in a zero byte; "
             "distinct = distinct (op,input); non-trivial = everything except the constant cmninfo request")
     assumptions = ["CPython struct modelled by Struct.lean (cross-checked by these cases)",
-                   "session-level part: virtual-time runtime (harness/vsim.py) and reference device (harness/refdev.py)"]
+                   "session-level part: virtual-time runtime (harness/vsim.py) and reference device (harness/refdev.py)",
+                   "enable vectors are lists of real bools (API typed list[bool]); int-valued vectors are outside the statements"]
     NS = [1, 2, 3, 16, 64, 127, 128, 129, 200, 254, 255]
 
     def __init__(self):
@@ -434,6 +628,24 @@ class C05(Prop):
                 for es, tag in structured_ens(rng, n):
                     yield f"req en vec {bits(es)} {n}", "en-vec-" + tag
                     yield f"req den {hexs(bytes([1, 0] + [int(e) for e in es]))} {n} {bits([rng.random() < 0.5 for _ in range(n)])}", "den-bulk-" + tag
+        # requests whose frame ends in a zero byte (low CRC byte 00; about one divider value per channel, enable of channels 70
+        # and 207, "all dividers = 120"): a device-side receiver must not take the byte for write padding
+        for n in self.NS:
+            for c in (range(n) if T else sorted(set([0, n - 1] + [rng.randrange(n) for _ in range(4)]))):
+                for v in range(256):
+                    if ref_frame(7, bytes([0, c, v]))[-1] == 0:
+                        yield f"req div single {c} {v} {n}", "div-single-crc00"
+                        if c < 16 or (T and c % 4 == 0):
+                            pad = rng.choice([0, 4, 16, 255])
+                            yield (f"req sess {n} {pad} {bits([False] * n)} {ints([0] * n)} d{c}={v};e{c}=1"), "sess-crc00"
+                            yield (f"req hist {n} {bits([False] * n)} {ints([1] * n)} "
+                                   f"{hexs(ref_frame(7, bytes([0, c, v])) + bytes(rng.choice([0, 3, 16])))}"), "hist-crc00"
+            for c in (70, 207):
+                if c < n:
+                    yield f"req en single {c} 1 {n}", "en-single-crc00"
+                    yield f"req sess {n} 16 {bits([False] * n)} {ints([0] * n)} e{c}=1;d0=120", "sess-crc00"
+            yield f"req div vec {ints([120] * n)} {n}", "div-all-crc00"
+            yield f"req sess {n} 8 {bits([False] * n)} {ints([0] * n)} D{ints([120] * n)}", "sess-crc00"
         yield from self.hist_lines(rng, T)
         yield from self.sess_lines(rng, T)
         # malformed / out-of-range
@@ -537,7 +749,7 @@ class C05(Prop):
         intended state."""
         t = line.split(" ")
         if t[0] == "sess":
-            return judge_session(line)[0]
+            return judge_dummy_session(line) if t[1] == "dummy" else judge_session(line)[0]
         from nxslib.proto.parse import Parser
         from nxslib.proto.parserecv import ParseRecv
         from nxslib.proto.iparserecv import ParseRecvCb
@@ -723,25 +935,41 @@ class C05(Prop):
         # the two shapes named in the review, fixed
         yield "sess cfg 3 1000 0,0,0,0 e1,2;W:a:a"
         yield "sess cfg 3 0100 0,6,0,0 e0;v5:0;W:a:a;e2,3;v7:2,3;W:a:a;d0;v9:3;W:a:a"
+        # second review: one write turning one channel on and another off; a single-channel difference after a write whose
+        # ACK was lost; the same against nxslib's own simulated device with an undefined-type and a critical channel
+        yield "sess cfg 3 1100 0,0,0,0 e2;d0;W:a:a"
+        yield "sess cfg 3 1000 0,0,0,0 e1;W:a:x;d1;e2;W:a:a"
+        yield "sess cfg 3 1000 4,0,0,0 v5:1;W:x:a;v0:1;v7:2;W:a:a"
+        yield "sess dummy 3 16 0,130,2,138 0100 0,0,3,0 e0,2;v9:1,3;W:a:a;e3;d1;W:a:a"
         for it in range(150 if T else 40):
             n = rng.choice([2, 3, 4, 5, 6, 8]) if it % 8 else rng.choice([16, 64, 130, 255])
             yield gen_session(rng, n)
+        for it in range(60 if T else 14):
+            n = rng.choice([2, 3, 4, 5, 6, 8]) if it % 8 else rng.choice([16, 130, 255])
+            yield gen_session(rng, n, dummy=True)
 
     def extra_checks(self, rng, tier, ev):
         out = []
         forms = {"en": {}, "div": {}}
-        k = 0
+        k = kd = 0
+        per_key = {}
         for line in self.session_lines(rng, tier):
-            k += 1
-            v, st = judge_session(line)
+            if line.startswith("sess dummy"):
+                kd += 1
+                v, st = judge_dummy_session(line), {"en": {}, "div": {}}
+            else:
+                k += 1
+                v, st = judge_session(line)
             for kind in forms:
                 for f, c in st[kind].items():
                     forms[kind][f] = forms[kind].get(f, 0) + c
             if v:
-                out.append(v)
-                if len(out) >= 3:
+                per_key[v["key"]] = per_key.get(v["key"], 0) + 1
+                if per_key[v["key"]] <= 3:
+                    out.append(v)
+                if len(out) >= 6:
                     break
-        ev["coverage"]["sessions"] = {"run": k, "request_forms_emitted": forms}
+        ev["coverage"]["sessions"] = {"run": k, "run_against_dummydev": kd, "request_forms_emitted": forms}
         return out
 
 
